@@ -309,4 +309,11 @@ proof {
                )}),
         ]),
     ], header='use super::*;\nuse crate::spec::*;\nuse crate::ucd_parse::{CodepointRange, Codepoints, string_facts};\nbroadcast use {crate::ucd_parse::axiom_string_eq, crate::ucd_parse::axiom_string_from_str};\n')
+    if True:
+        from . import tools_parse
+        model.items.append(Text(rd('tools_model2.rs')))
+        spec.items.append(Text(rd('spec_tools_parse.rs'), tag='C15.spec_lemmas'))
+        parsers = tools_parse.module(repo)
+        gen.items += tools_parse.table_flavours()
+        gen.header += 'use crate::ucd_parse::{Property, CoreProperty, Script};\nuse crate::ucd_parsers::{HangulSyllableType, DerivedJoiningType};\n'
     return [model, spec, err, common, parsers, gen, bidi]
